@@ -4,20 +4,9 @@
 module L = Stdlib.List
 open BinNums
 
-let rec pos_of_int (i : int) : positive =
-  if i = 1 then Coq_xH
-  else if i land 1 = 0 then Coq_xO (pos_of_int (i lsr 1))
-  else Coq_xI (pos_of_int (i lsr 1))
-let n_of_int (i : int) : coq_N = if i = 0 then N0 else Npos (pos_of_int i)
-let rec int_of_pos = function
-  | Coq_xH -> 1
-  | Coq_xO p -> 2 * int_of_pos p
-  | Coq_xI p -> 2 * int_of_pos p + 1
-let int_of_n = function N0 -> 0 | Npos p -> int_of_pos p
+open Util
 
 (* ---------------------------------------------------------------- canonical printing *)
-let p1 = 2147483647 and b1 = 257 and p2 = 2147483629 and b2 = 65599
-let hexmax = 256
 
 let print_events (buf : Buffer.t) (evs : Hal.hal list) (dc0 : bool option) (full : bool) : bool option =
   let dc = ref dc0 in
@@ -77,19 +66,6 @@ let print_events (buf : Buffer.t) (evs : Hal.hal list) (dc0 : bool option) (full
   !dc
 
 (* ---------------------------------------------------------------- buffers *)
-let gen_byte kind seed i =
-  match kind with
-  | 'z' -> 0
-  | 'f' -> 0xff
-  | 'c' -> seed land 0xff
-  | _ ->
-      let m = 0xFFFFFFFF in
-      let x = ((i * 2654435761) land m + (seed * 40503) land m) land m in
-      let x = x lxor (x lsr 15) in
-      let x = (x * 2246822519) land m in
-      let x = x lxor (x lsr 13) in
-      x land 0xff
-
 let bufs : (int * int, Bytes.t) Hashtbl.t = Hashtbl.create 16
 
 let add_buf call arg spec =
